@@ -518,17 +518,19 @@ def rule_ligand_block_model(prog, rep, rid):
         raise AnalysisError("non_trivial: 'hits, misses = biomolecule.apply_force_field(...)' not found")
     hit, miss = (U(e) for e in bind[0].targets[0].elts)
 
-    def res(cls, name, num, rectype, atoms):
-        robj = Obj({"__class__": cls, "name": name, "res_seq": num, "atoms": [], "chain_id": "A"})
-        for an, q in atoms:
+    def res(cls, name, num, rectype, atoms, first_serial=1):
+        # serial numbers are what the input file says: a docked ligand appended with its own numbering repeats serials of the protein
+        robj = Obj({"__class__": cls, "name": name, "res_seq": num, "atoms": [], "chain_id": "A", "ins_code": ""})
+        for k, (an, q) in enumerate(atoms):
             robj["atoms"].append(Obj({"__class__": "Atom", "name": an, "type": rectype, "residue": robj, "ffcharge": q, "radius": 1.0 if q is not None else None,
-                                      "__id__": f"{name}{num}:{an}"}))
+                                      "__id__": f"{name}{num}:{an}", "serial": first_serial + k, "res_name": name, "res_seq": num, "chain_id": "A", "ins_code": "",
+                                      "x": float(num), "y": float(k), "z": 0.0}))
         return robj
 
     ala = res("ALA", "ALA", 1, "ATOM", [("N", -0.4), ("CA", 0.1), ("C", 0.6), ("O", -0.5), ("H1", 0.2)])
     lig = res("Residue", "LIG", 2, "HETATM", [("C1", 0.33), ("O1", None), ("H1", None)])   # C1 is also known to the force field
-    wat = res("WAT", "HOH", 3, "HETATM", [("O", -0.834), ("H1", 0.417), ("H2", 0.417)])
-    ion = res("Residue", "ZN", 4, "HETATM", [("ZN", None)])
+    wat = res("WAT", "HOH", 3, "HETATM", [("O", -0.834), ("H1", 0.417), ("H2", 0.417)], first_serial=6)
+    ion = res("Residue", "ZN", 4, "HETATM", [("ZN", None)], first_serial=9)
     mol2 = {"C1": Obj({"charge": -0.10, "radius": 1.87}), "O1": Obj({"charge": -0.55, "radius": 1.76}), "H1": Obj({"charge": 0.65, "radius": 1.10})}
     ligand = Obj({"__class__": "Mol2Molecule", "atoms": mol2})
     hits = [a for x in (ala, lig, wat, ion) for a in x["atoms"] if a["ffcharge"] is not None]
@@ -549,6 +551,8 @@ def rule_ligand_block_model(prog, rep, rid):
         r.bad("ligand|runs", f"the ligand block stops with {fl.value} on the model complex", where)
         return
     hits2, misses2 = out[hit], out[miss]
+    if not isinstance(hits2, list) or not isinstance(misses2, list):
+        raise AnalysisError("ligand block: the lists of matched and missing atoms are not determined on the model complex")
     counts = {a["__id__"]: sum(1 for x in hits2 if x is a) for a in lig["atoms"]}
     r.add("ligand|written-once", all(v == 1 for v in counts.values()),
           f"occurrences of the ligand atoms in the printed list: {counts} (an ion follows the ligand in the chain; C1 is also known to the "
